@@ -96,9 +96,18 @@ func NewMaprClient(args config.Args, maprClientMode MaprClientMode) (*MaprClient
 
 // Start starts the mapreduce client.
 func (c *MaprClient) Start(ctx context.Context, statsCh <-chan string) (status int) {
-	go c.periodicReportResults(ctx)
+	reportCtx, stopReporting := context.WithCancel(ctx)
+	reporterDone := make(chan struct{})
+	go func() {
+		defer close(reporterDone)
+		c.periodicReportResults(reportCtx)
+	}()
 
 	status = c.baseClient.Start(ctx, statsCh)
+	// The final report has to be the last one. An interim report which is still
+	// under way would otherwise print its older result after the final one.
+	stopReporting()
+	<-reporterDone
 	if c.cumulative {
 		dlog.Client.Debug("Received final mapreduce result")
 		c.reportResults(true)
@@ -139,7 +148,11 @@ func (c MaprClient) makeCommands() (commands []string) {
 func (c *MaprClient) periodicReportResults(ctx context.Context) {
 	rampUpSleep := c.query.Interval / 2
 	dlog.Client.Debug("Ramp up sleeping before processing mapreduce results", rampUpSleep)
-	time.Sleep(rampUpSleep)
+	select {
+	case <-time.After(rampUpSleep):
+	case <-ctx.Done():
+		return
+	}
 
 	for {
 		select {
